@@ -476,6 +476,38 @@ def r10(tree, rep, tier):
                            % (role, bad[0][0] if bad else "?", bad[0][1] if bad else "?"))
 
 
+def r13(tree, rep):
+    """what the peer lists under "can-dilate" is arbitrary JSON (null, a number, a list of anything): version negotiation must come to
+    its verdict - a shared version or none - without raising, or Manager.got_wormhole_versions is left before fail() and connect() waits
+    for ever.  Decided by the JSON type-guard engine (sa/jsonguard.py, the engine of C20): _find_shared_versions is interpreted with a
+    list of strings for our side and a value of any JSON type for theirs; every operation that can raise on a type the value may still
+    have is a sink."""
+    from .. import jsonguard as jg
+    from .C20 import _funcs, _namedtuples
+    funcs, file_of = _funcs(tree, [(MGR, None)])
+    if "_find_shared_versions" not in funcs:
+        raise AnalysisError("_find_shared_versions not found")
+    A = jg.Analyzer(funcs, _namedtuples(tree), {}, file_of)
+    A.stack[:] = ["_find_shared_versions"]
+    anyjson = jg.J({"dict", "list", "str", "int", "float", "bool", "none"})
+    A.inline(funcs["_find_shared_versions"], [jg.CONT("list", jg.PY("str")), anyjson], {})
+    rep.check("C17.R13", "type-guard analysis of _find_shared_versions with an arbitrary JSON value for the peer's can-dilate entry (%d abstract "
+              "operations)" % A.ops, True, MGR, key="C17.R13:summary", evals=max(1, A.ops))
+    for s in A.sinks:
+        if s["kind"] == "CONSTRUCT":
+            continue
+        rep.violation("C17.R13", "C17.R13:%s:%s:%s" % (s["kind"], s["func"], s["detail"]),
+                      "the peer's can-dilate value can make %s raise (%s): Manager.got_wormhole_versions is left before fail(OldPeerCannotDilateError) "
+                      "- connect() on a peer that cannot dilate waits for ever" % (s["func"], s["detail"]), "%s:%d" % (s["file"], s["lineno"]))
+    gv = tree.func(MGR, "Manager", "got_wormhole_versions")
+    gets = [c for c in ast.walk(gv) if isinstance(c, ast.Call) and isinstance(c.func, ast.Attribute) and c.func.attr == "get"
+            and c.args and const(c.args[0]) == "can-dilate"]
+    subs = [c for c in ast.walk(gv) if isinstance(c, ast.Subscript) and const(c.slice) == "can-dilate"]
+    rep.check("C17.R13", "Manager.got_wormhole_versions reads can-dilate with .get (a missing key is an old peer, not a KeyError) and hands it to "
+              "_find_shared_versions", len(gets) == 1 and not subs and bool(calls_named(gv, "_find_shared_versions")), site(gv, MGR),
+              key="C17.R13:got_wormhole_versions:get")
+
+
 def run(tree, rep, tier):
     # R11: Manager.fail records the failure on the main channel before anything else can run (and possibly raise): the pending and future
     # connect() calls are failed first
@@ -500,6 +532,7 @@ def run(tree, rep, tier):
     r5(tree, rep)
     r6(tree, rep)
     r7(tree, rep, tier)
+    r13(tree, rep)
     r10(tree, rep, tier)
     from ..tablerules import application_outputs_last
     application_outputs_last(rep, "C17.R12", prog.machine("Manager"),
@@ -546,3 +579,6 @@ MUTANTS.append(Mutant("dilator-stop-chain-after-stop", MGR, "            try:\n 
                       "finding F17 put back: a raising status callback leaves Dilator.stop before stoppedD is chained"))
 REWRITES.append(Rewrite("dilator-stop-chain-first", MGR, "            try:\n                self._manager.stop()\n            finally:\n                # (also when the application's status callback, which stop()\n                # runs, raises: the Manager has stopped by then)\n                # TODO: avoid Deferreds for control flow, hard to serialize\n                self._manager.when_stopped().addCallback(lambda _: self._T.stoppedD())\n",
                         "            self._manager.when_stopped().addCallback(lambda _: self._T.stoppedD())\n            self._manager.stop()\n", desc="subscribe before stopping instead of try/finally"))
+MUTANTS.append(Mutant("versions-set-of-raw-json", MGR, "    if not isinstance(their_versions, (list, tuple)):\n        their_versions = []\n    their_dilation_versions = {v for v in their_versions if isinstance(v, str)}\n",
+                      "    their_dilation_versions = set(their_versions)\n", "C17.R13", "finding F20 put back"))
+MUTANTS.append(Mutant("versions-logged-with-join", MGR, "    # dilation_version is the best mutually-compatible version we have\n", "    if best_version is None:\n        log.msg(\"nothing in common with [%s]\" % \", \".join(their_versions))\n    # dilation_version is the best mutually-compatible version we have\n", "C17.R13", "seed C17-14"))
